@@ -74,7 +74,7 @@ class Report:
 
     # rules that read the program text (MIR call sites, aggregates, types) and not the interpreter's result: an unknown
     # library function elsewhere does not make them less certain
-    STATIC_RULES = {'R18.1', 'R18.5', 'R20.2', 'R20.5', 'R7.8', 'R15.5', 'R17.12', 'R19.7', 'R18.4', 'R16.8', 'R19.8', 'R7.4', 'R18.7'}
+    STATIC_RULES = {'R18.1', 'R18.5', 'R20.2', 'R20.5', 'R7.8', 'R15.5', 'R17.12', 'R19.7', 'R18.4', 'R16.8', 'R19.8', 'R7.4', 'R18.7', 'R18.8', 'R18.9'}
 
     def downgrade_all(self, reason):
         """the analysis met library code it has no model for: what the interpreter concluded is not a verdict (never an alarm)"""
